@@ -138,3 +138,129 @@ package snapshot
 //@   loop 2 invariant [wal-prefix] forall m int :: (0 <= m && m < _i) ==> added[snap.walFiles[m]]
 //@   loop 2 invariant [db-file] snap.dbFile != nil ==> added[snap.dbFile]
 //@   assert @checker.Check: [db-files-added] forall k int :: (0 <= k && k < len(snapshots.items) && snapshots.items[k].dbFile != nil) ==> added[snapshots.items[k].dbFile]
+//
+// ---- C10: the receiving side installs exactly the bytes the header describes ----------------------
+//@ spec import C10
+//@ spec import rqlite_rsum
+//@ spec import lib/std
+//@ spec import lib/io
+//
+// NewFullSink / Open establish the representation invariant the other operations keep.
+//@ func NewFullSink
+//@   requires [hdr] hdr != nil
+//@   loop 1 invariant [paths] len(s.walFiles) == _i && s.header == hdr && s != nil
+//@   ensures [wf] result != nil && wfStatic(result) && !result.opened && result.header == hdr
+//
+//@ func (*FullSink) Open
+//@   safe
+//@   requires [wf] s != nil && (s.header != nil ==> wfStatic(s)) && s.f == nil && s.crcW == nil
+//@   assigns *
+//@   ensures [wf] result == nil ==> (s.opened && wfSink(s))
+//@   ensures [invalid-header-refused] (old(s.header) == nil || old(s.header.DbHeader) == nil) ==> result != nil
+//
+//@ func (*FullSink) validateHeader
+//@   assigns nothing
+//@   ensures [valid] (result == nil) == (s.header != nil && s.header.DbHeader != nil)
+//
+//@ func (*FullSink) closeFile
+//@   requires [recv] s != nil && ((s.f != nil) == (s.crcW != nil))
+//@   assigns f, crcW
+//@   ensures [closed] result == nil ==> (s.f == nil && s.crcW == nil)
+//@   ensures [kept] result != nil ==> (s.f == old(s.f) && s.crcW == old(s.crcW))
+//
+// openCurrent: the next artifact is opened with exactly the size its header declares.
+//@ func (*FullSink) openCurrent
+//@   safe
+//@   requires [wf] s != nil && s.header != nil && s.header.DbHeader != nil && len(s.walFiles) == len(s.header.WalHeaders) && s.walIndex >= 0
+//@   assigns f, crcW, remaining, phase
+//@   ensures [db] (result == nil && old(s.phase) == installPhaseDB) ==> (s.f != nil && s.crcW != nil && s.remaining == s.header.DbHeader.SizeBytes && s.phase == installPhaseDB)
+//@   ensures [wal] (result == nil && old(s.phase) == installPhaseWAL && s.walIndex < len(s.header.WalHeaders)) ==> (s.f != nil && s.crcW != nil && s.remaining == s.header.WalHeaders[s.walIndex].SizeBytes && s.phase == installPhaseWAL)
+//@   ensures [done] (result == nil && old(s.phase) == installPhaseWAL && s.walIndex >= len(s.header.WalHeaders)) ==> (s.phase == installPhaseDone && s.f == old(s.f))
+//@   ensures [error] result != nil ==> (s.f == old(s.f) && s.crcW == old(s.crcW) && s.phase == old(s.phase))
+//@   ensures [pair-kept] ((old(s.f) != nil) == (old(s.crcW) != nil)) ==> ((s.f != nil) == (s.crcW != nil))
+//
+// advance: records the checksum of the artifact just completed and moves to the next one.
+//@ func (*FullSink) advance
+//@   safe
+//@   requires [wf] s != nil && wfSink(s)
+//@   assigns f, crcW, remaining, phase, walIndex, dbCRC, Elems$Int
+//@   ensures [wf] wfSink(s)
+//@   ensures [headers-kept] forall j int :: (0 <= j && j < len(s.header.WalHeaders)) ==> s.header.WalHeaders[j] == old(s.header.WalHeaders[j])
+//@   ensures [other-crcs-kept] forall j int :: (0 <= j && j < len(s.walCRCs) && !(old(s.phase) == installPhaseWAL && j == old(s.walIndex))) ==> s.walCRCs[j] == old(s.walCRCs[j])
+//@   ensures [db-crc] (old(s.crcW) != nil && old(s.phase) == installPhaseDB) ==> s.dbCRC == crcOf(old(s.crcW))
+//@   ensures [wal-crc] (old(s.crcW) != nil && old(s.phase) == installPhaseWAL && old(s.walIndex) < len(s.walCRCs)) ==> s.walCRCs[old(s.walIndex)] == crcOf(old(s.crcW))
+//@   ensures [progress] result == nil ==> (s.phase != installPhaseDone ==> (s.f != nil && s.crcW != nil))
+//
+// Write: bytes go to the current artifact only while it still has room (never past the size in
+// the header), the next artifact is opened only when the current one is exactly full, and data
+// after the last artifact is refused.
+//@ func (*FullSink) Write
+//@   safe
+//@   requires [wf] s != nil && (s.opened ==> wfSink(s))
+//@   assigns *
+//@   assert @s.crcW.Write: [nonempty] len(arg0) > 0
+//@   assert @s.crcW.Write: [no-overrun] len(arg0) <= s.remaining
+//@   assert @s.crcW.Write: [not-after-done] s.phase != installPhaseDone && s.crcW != nil
+//@   assert @s.advance: [switch-only-when-full] s.remaining == 0
+//@   loop 1 invariant [wf] wfSink(s) && s.opened && total >= 0
+//@   ensures [not-open] !old(s.opened) ==> (result0 == 0 && result1 == ErrSinkNotOpen)
+//@   ensures [extension-refused] (old(s.opened) && old(s.phase) == installPhaseDone && len(old(p)) >= 0) ==> (result0 == 0 && result1 == ErrUnexpectedData)
+//@   ensures [wf] old(s.opened) ==> wfSink(s)
+//
+// Close: nil only if every artifact was received completely and its checksum equals the one in
+// the header; the sidecars are written with exactly those checksums.
+//@ func (*FullSink) Close
+//@   safe
+//@   requires [wf] s != nil && (s.opened ==> wfSink(s))
+//@   assigns *
+//@   assert @s.advance: [switch-only-when-full] s.remaining == 0
+//@   assert @sidecar.WriteFile#1: [wal-sidecar-crc] arg1 == walCRC && walCRC == s.header.WalHeaders[i].Crc32
+//@   assert @sidecar.WriteFile#2: [db-sidecar-crc] arg1 == s.dbCRC && s.dbCRC == s.header.DbHeader.Crc32
+//@   loop 1 invariant [wf] wfSink(s)
+//@   loop 2 invariant [checked-so-far] forall j int :: (0 <= j && j < _i) ==> s.walCRCs[j] == s.header.WalHeaders[j].Crc32
+//@   ensures [not-open] !old(s.opened) ==> result == ErrSinkNotOpen
+//
+// Restore (the other consumer of a snapshot stream): safe for every header; the database bytes are
+// checked against the header CRC before any WAL is touched, every WAL is checked before replay.
+//@ func Restore
+//@   safe
+//@   ghost var makeBound int = 4294967295
+//@   ghost var dbCopied bool = false
+//@   ghost var walCopied int = -1
+//@   ghost var crcDB int = -1
+//@   ghost update after @io.CopyN#1: dbCopied = true
+//@   ghost update after @io.CopyN#2: walCopied = i
+//@   ghost var wantDB int = -2
+//@   ghost update after @dbCR.Sum32: crcDB = result
+//@   ghost update after @dbCR.Sum32: wantDB = full.DbHeader.Crc32
+//@   assert @rsum.NewCRC32Reader#1: [wraps-stream] arg0 == r
+//@   assert @rsum.NewCRC32Reader#2: [wraps-stream] arg0 == r
+//@   assert @dbCR.Sum32: [crc-after-data] dbCopied
+//@   assert @walCR.Sum32: [crc-after-data] walCopied == i
+//@   ensures [db-verified] result1 == nil ==> (dbCopied && crcDB == wantDB)
+//@   assert @io.CopyN#1: [db-through-crc] arg1 == dbCR && arg2 == full.DbHeader.SizeBytes
+//@   assert @io.CopyN#2: [wal-through-crc] arg1 == walCR && arg2 == wh.SizeBytes
+//@   assert @os.Create#2: [db-checked-first] crcOf(dbCR) == full.DbHeader.Crc32
+//@   assert @append: [wal-checked] crcOf(walCR) == wh.Crc32
+//@   loop 1 invariant [count] len(walFiles) == _i
+//@   assert @db.ReplayWAL: [all-wals-checked] len(walFiles) == len(full.WalHeaders) && arg0 == dstPath && arg1 == walFiles
+//
+// ---- C10: the adaptive Sink in front of FullSink ----------------------------------------------------
+//@ spec import lib/bytes
+//
+// processHeader: never indexes past the buffered bytes, whatever length prefix arrives.
+//@ func (*Sink) processHeader
+//@   safe
+//@   requires [recv] s != nil
+//@   assigns *, bufLen
+//
+// Close: the temporary directory is renamed into place only after the full sink accepted the
+// stream (FullSink.Close == nil: complete, checksums equal to the header), and a nil result
+// means a snapshot was installed.
+//@ func (*Sink) Close
+//@   requires [recv] s != nil
+//@   assigns **
+//@   ghost var verified bool = false
+//@   ghost update after @s.sinkW.Close: verified = (result == nil)
+//@   assert @os.Rename#2: [install-only-verified] (old(s.localWALDir) == "" ==> verified) && arg0 == s.snapTmpDirPath && arg1 == s.snapDirPath
+//@   ensures [nil-means-installed] (result == nil && old(s.opened)) ==> (old(s.sinkW) != nil || old(s.localWALDir) != "")
